@@ -77,29 +77,27 @@ structure CompS where
   watch : Watch
 deriving DecidableEq, Repr, Inhabited
 
-structure GlyphS (V : Type) where
+structure GlyphS where
   /-- version of the glyph's own attributes (name, width, …) -/
   attr : Nat
   contours : List ContourS
   comps : List CompS
-  cache : Cache V := []
-deriving Inhabited
+deriving DecidableEq, Repr, Inhabited
 
-abbrev Layer (V : Type) := List (String × GlyphS V)
+abbrev Layer := List (String × GlyphS)
 
 structure World (V : Type) where
   clock : Nat := 1
   /-- nesting fuel for outlines and notification cascades; never changes -/
   fuel : Nat := 64
-  glyphs : Layer V := []
+  glyphs : Layer := []
   /-- contours / components that belong to no glyph (no dispatcher: nothing is cached) -/
   looseC : List ContourS := []
   looseK : List CompS := []
   groupsVer : Nat := 0
-  gcache : Cache V := []
   /-- `registerRepresentationFactory` calls made so far: (class, name, destructive spec) -/
   regs : List (String × String × Destr) := []
-  /-- caches of contours and components, by id -/
+  /-- `_representations` of every object that has a dispatcher -/
   caches : List (Obj × Cache V) := []
 deriving Inhabited
 
@@ -152,17 +150,17 @@ def acceptsKw (name : String) : Bool :=
 section Structure
 variable {V : Type}
 
-def hasContour (cid : Nat) (g : GlyphS V) : Bool := g.contours.any fun c => c.id = cid
-def hasComp (kid : Nat) (g : GlyphS V) : Bool := g.comps.any fun k => k.id = kid
+def hasContour (cid : Nat) (g : GlyphS) : Bool := g.contours.any fun c => c.id = cid
+def hasComp (kid : Nat) (g : GlyphS) : Bool := g.comps.any fun k => k.id = kid
 
-def hostOfContour (gs : Layer V) (cid : Nat) : Option (String × GlyphS V) :=
+def hostOfContour (gs : Layer) (cid : Nat) : Option (String × GlyphS) :=
   gs.find? fun p => hasContour cid p.2
 
-def hostOfComp (gs : Layer V) (kid : Nat) : Option (String × GlyphS V) :=
+def hostOfComp (gs : Layer) (kid : Nat) : Option (String × GlyphS) :=
   gs.find? fun p => hasComp kid p.2
 
-def contourIn (g : GlyphS V) (cid : Nat) : Option ContourS := g.contours.find? fun c => c.id = cid
-def compIn (g : GlyphS V) (kid : Nat) : Option CompS := g.comps.find? fun k => k.id = kid
+def contourIn (g : GlyphS) (cid : Nat) : Option ContourS := g.contours.find? fun c => c.id = cid
+def compIn (g : GlyphS) (kid : Nat) : Option CompS := g.comps.find? fun k => k.id = kid
 
 def contourToks (c : ContourS) : List Tok := [.c c.ver c.ox c.oy]
 
@@ -173,19 +171,19 @@ def compHead (rec : String → List Tok) (k : CompS) : List Tok :=
 
 /-- a glyph's outline as a pen sees it: its contours, then every component with the outline
 of its base glyph (looked up *by name* in the layer, as `layer[baseGlyph]` does) -/
-def bodyWith (rec : String → List Tok) (g : GlyphS V) : List Tok :=
+def bodyWith (rec : String → List Tok) (g : GlyphS) : List Tok :=
   Tok.gopen :: (g.contours.flatMap contourToks ++ g.comps.flatMap (compHead rec)) ++ [Tok.gclose]
 
-def outline : Nat → Layer V → String → List Tok
+def outline : Nat → Layer → String → List Tok
   | 0, _, _ => [.cut]
   | n + 1, gs, nm =>
     match AL.get? gs nm with
     | none => [.missing]
     | some g => bodyWith (outline n gs) g
 
-def glyphOutline (n : Nat) (gs : Layer V) (g : GlyphS V) : List Tok := bodyWith (outline n gs) g
+def glyphOutline (n : Nat) (gs : Layer) (g : GlyphS) : List Tok := bodyWith (outline n gs) g
 
-def compToks (n : Nat) (gs : Layer V) (k : CompS) : List Tok := compHead (outline n gs) k
+def compToks (n : Nat) (gs : Layer) (k : CompS) : List Tok := compHead (outline n gs) k
 
 def isBuiltin (T : Tables) (cls name : String) : Bool :=
   (T.factoriesOf cls).any fun p => p.1 = name
@@ -193,10 +191,10 @@ def isBuiltin (T : Tables) (cls name : String) : Bool :=
 def contourView (T : Tables) (name : String) (c : ContourS) : List Tok :=
   if isBuiltin T "Contour" name then contourToks c else contourToks c ++ [.ca c.attr]
 
-def compView (T : Tables) (n : Nat) (gs : Layer V) (name : String) (k : CompS) : List Tok :=
+def compView (T : Tables) (n : Nat) (gs : Layer) (name : String) (k : CompS) : List Tok :=
   if isBuiltin T "Component" name then compToks n gs k else [.k k.data, .ka k.attr]
 
-def glyphView (T : Tables) (n : Nat) (gs : Layer V) (name : String) (g : GlyphS V) : List Tok :=
+def glyphView (T : Tables) (n : Nat) (gs : Layer) (name : String) (g : GlyphS) : List Tok :=
   if isBuiltin T "Glyph" name then glyphOutline n gs g
   else Tok.g g.attr :: glyphOutline n gs g
          ++ g.contours.map (fun c => Tok.ca c.attr) ++ g.comps.map (fun k => Tok.ka k.attr)
@@ -244,25 +242,12 @@ end Structure
 section Caches
 variable {V : Type}
 
-def cacheOf (w : World V) (o : Obj) : Cache V :=
-  match o with
-  | .glyph nm => ((AL.get? w.glyphs nm).map fun g => g.cache).getD []
-  | .groups => w.gcache
-  | o => (AL.get? w.caches o).getD []
+def cacheOf (w : World V) (o : Obj) : Cache V := (AL.get? w.caches o).getD []
 
-def setGlyphCache (gs : Layer V) (nm : String) (c : Cache V) : Layer V :=
-  match AL.get? gs nm with
-  | none => gs
-  | some g => AL.set gs nm { g with cache := c }
+def setCache (w : World V) (o : Obj) (c : Cache V) : World V := { w with caches := AL.set w.caches o c }
 
-def setCache (w : World V) (o : Obj) (c : Cache V) : World V :=
-  match o with
-  | .glyph nm => { w with glyphs := setGlyphCache w.glyphs nm c }
-  | .groups => { w with gcache := c }
-  | o => { w with caches := AL.set w.caches o c }
-
-/-- `endSelfNotificationObservation` of a contour / component: the cache is dropped -/
-def dropCache (w : World V) (o : Obj) : World V := { w with caches := AL.erase w.caches o }
+/-- `endSelfNotificationObservation`: the cache is dropped -/
+def dropCache (w : World V) (o : Obj) : World V := { w with caches := eraseAll w.caches o }
 
 /-- `representationFactories` of the object's class at this moment: (name, destructive spec) -/
 def facsOf (T : Tables) (regs : List (String × String × Destr)) (cls : String) : List (String × Destr) :=
@@ -290,7 +275,7 @@ def relays (ns : List String) : Bool :=
 def watchesBase (a : String) (k : CompS) : Bool := k.watch = Watch.base && k.base = some a
 
 /-- (host glyph name, component id) of every component registered on the glyph named `a` -/
-def watchers (gs : Layer V) (a : String) : List (String × Nat) :=
+def watchers (gs : Layer) (a : String) : List (String × Nat) :=
   gs.flatMap fun p => (p.2.comps.filter (watchesBase a)).map fun k => (p.1, k.id)
 
 /-- a component (in glyph `h`) has posted `cn`: itself, then its glyph's two callbacks
@@ -304,7 +289,7 @@ def compRelay (rec : String → List String → List (Obj × String)) (T : Table
 
 /-- the glyph named `a` has posted `ns`: itself, then (for ContoursChanged / ComponentsChanged) every
 component registered on it runs `baseGlyphDataChangedNotificationCallback`, and so on upwards -/
-def glyphDeliv : Nat → Tables → Layer V → String → List String → List (Obj × String)
+def glyphDeliv : Nat → Tables → Layer → String → List String → List (Obj × String)
   | 0, _, _, _, _ => []
   | n + 1, T, gs, a, ns =>
     ns.map (fun x => (Obj.glyph a, x)) ++
@@ -314,12 +299,12 @@ def glyphDeliv : Nat → Tables → Layer V → String → List String → List 
           (T.postsOf "Component" "baseGlyphDataChangedNotificationCallback")
      else [])
 
-def compDeliv (n : Nat) (T : Tables) (gs : Layer V) (h : String) (kid : Nat) (cn : List String) :
+def compDeliv (n : Nat) (T : Tables) (gs : Layer) (h : String) (kid : Nat) (cn : List String) :
     List (Obj × String) :=
   compRelay (glyphDeliv n T gs) T h kid cn
 
 /-- a contour (in glyph `h`) has posted `ns`: itself, then `Glyph._contourChanged` -/
-def contourDeliv (n : Nat) (T : Tables) (gs : Layer V) (h : String) (cid : Nat) (ns : List String) :
+def contourDeliv (n : Nat) (T : Tables) (gs : Layer) (h : String) (cid : Nat) (ns : List String) :
     List (Obj × String) :=
   ns.map (fun x => (Obj.contour cid, x)) ++
   (if ns.contains "Contour.Changed" then glyphDeliv n T gs h (T.postsOf "Glyph" "_contourChanged") else [])
@@ -374,25 +359,25 @@ variable {V : Type}
 def tick (w : World V) : World V := { w with clock := w.clock + 1 }
 
 /-- replace the record of glyph `nm` -/
-def updGlyph (gs : Layer V) (nm : String) (fn : GlyphS V → GlyphS V) : Layer V :=
+def updGlyph (gs : Layer) (nm : String) (fn : GlyphS → GlyphS) : Layer :=
   match AL.get? gs nm with
   | none => gs
   | some g => AL.set gs nm (fn g)
 
-def mapContours (cid : Nat) (fn : ContourS → ContourS) (g : GlyphS V) : GlyphS V :=
+def mapContours (cid : Nat) (fn : ContourS → ContourS) (g : GlyphS) : GlyphS :=
   { g with contours := g.contours.map fun c => if c.id = cid then fn c else c }
 
-def mapComps (kid : Nat) (fn : CompS → CompS) (g : GlyphS V) : GlyphS V :=
+def mapComps (kid : Nat) (fn : CompS → CompS) (g : GlyphS) : GlyphS :=
   { g with comps := g.comps.map fun k => if k.id = kid then fn k else k }
 
 /-- every component of every glyph -/
-def mapAllComps (gs : Layer V) (fn : CompS → CompS) : Layer V :=
+def mapAllComps (gs : Layer) (fn : CompS → CompS) : Layer :=
   gs.map fun p => (p.1, { p.2 with comps := p.2.comps.map fn })
 
 def insertAt {α : Type} (l : List α) (i : Nat) (a : α) : List α := l.take i ++ a :: l.drop i
 
 /-- `beginSelfBaseGlyphNotificationObservation` -/
-def watchFor (gs : Layer V) (base : Option String) : Watch :=
+def watchFor (gs : Layer) (base : Option String) : Watch :=
   match base with
   | none => .none
   | some b => if AL.contains gs b then .base else .layer
@@ -460,7 +445,7 @@ def doGet (P : Params V) (T : Tables) (w : World V) (o : Obj) (name : String) (k
     let r := getOne P T w o name sk
     (r.1, .got r.2)
 
-def compSel (sel : CompS → Bool) (p : String × GlyphS V) : List (String × Nat) :=
+def compSel (sel : CompS → Bool) (p : String × GlyphS) : List (String × Nat) :=
   (p.2.comps.filter sel).map fun k => (p.1, k.id)
 
 def setWatch (sel : CompS → Bool) (nw : Watch) (k : CompS) : CompS :=
@@ -526,7 +511,7 @@ def doKsetBase (T : Tables) (w : World V) (kid : Nat) (base : Option String) : W
     else (w, .err "unknown-object")
 
 /-- the glyph named `g` has been changed by `fn` and posts what Glyph method `meth` posts -/
-def glyphChange (T : Tables) (w : World V) (g : String) (fn : GlyphS V → GlyphS V) (meth : String) : World V :=
+def glyphChange (T : Tables) (w : World V) (g : String) (fn : GlyphS → GlyphS) (meth : String) : World V :=
   let w1 := { w with glyphs := updGlyph w.glyphs g fn }
   applyDeliv T w1 (glyphDeliv w1.fuel T w1.glyphs g (T.postsOf "Glyph" meth))
 
@@ -578,8 +563,8 @@ def doNewGlyph (T : Tables) (w : World V) (name : String) : World V × Res :=
   -- Layer.GlyphAdded: components waiting on the layer for this name
   (switchAndPost T w1 (waitsFor name) .base "layerGlyphAddedNotificationCallback", .ok)
 
-def goneObjs (g : GlyphS V) : List Obj :=
-  g.contours.map (fun c => Obj.contour c.id) ++ g.comps.map (fun k => Obj.comp k.id)
+def goneObjs (name : String) (g : GlyphS) : List Obj :=
+  Obj.glyph name :: (g.contours.map (fun c => Obj.contour c.id) ++ g.comps.map (fun k => Obj.comp k.id))
 
 def doDelGlyph (T : Tables) (w : World V) (name : String) : World V × Res :=
   match AL.get? w.glyphs name with
@@ -588,7 +573,7 @@ def doDelGlyph (T : Tables) (w : World V) (name : String) : World V × Res :=
     -- Layer.GlyphWillBeDeleted, before anything is removed
     let w1 := switchAndPost T w (watchesBase name) .layer "layerGlyphWillBeDeletedNotificationCallback"
     -- _deleteGlyph: the glyph and everything below it stop observing (their caches are dropped)
-    ((goneObjs g).foldl dropCache { w1 with glyphs := AL.erase w1.glyphs name }, .ok)
+    ((goneObjs name g).foldl dropCache { w1 with glyphs := eraseAll w1.glyphs name }, .ok)
 
 def doRename (T : Tables) (w : World V) (old new : String) : World V × Res :=
   match AL.get? w.glyphs old with
@@ -596,7 +581,8 @@ def doRename (T : Tables) (w : World V) (old new : String) : World V × Res :=
   | some g =>
     if AL.contains w.glyphs new || old = new then (w, .err "exists") else
     -- Glyph._set_name, Layer._glyphNameChange: _deleteGlyph(old), _insertGlyph under the new name
-    let w1 := tick { w with glyphs := AL.set (AL.erase w.glyphs old) new { g with attr := w.clock } }
+    let w1 := tick { w with glyphs := AL.set (eraseAll w.glyphs old) new { g with attr := w.clock },
+                            caches := AL.set (eraseAll w.caches (.glyph old)) (.glyph new) (cacheOf w (.glyph old)) }
     -- Layer.GlyphNameChanged: components waiting for `new`
     let w2 := switchAndPost T w1 (waitsFor new) .base "layerGlyphNameChangedNotificationCallback"
     -- Glyph.NameChanged: components that were registered on this glyph
@@ -644,9 +630,7 @@ def run (P : Params V) (T : Tables) (w : World V) (ops : List Op) : World V :=
 
 /-- cached keys of every object (what `representationKeys()` would list) -/
 def digest (w : World V) : List (Obj × List (String × SubKey)) :=
-  ((w.caches.map fun p => (p.1, p.2.keys)) ++
-   (w.glyphs.map fun p => (Obj.glyph p.1, p.2.cache.keys)) ++
-   [(Obj.groups, w.gcache.keys)]).filter fun p => !p.2.isEmpty
+  (w.caches.map fun p => (p.1, p.2.keys)).filter fun p => !p.2.isEmpty
 
 end Step
 
